@@ -178,7 +178,7 @@ pub fn cmd_cw(a: &[Sx]) -> Result<String, String> {
 	Ok(out)
 }
 
-struct MetaOut(Vec<(String, Vec<u8>)>);
+pub(crate) struct MetaOut(pub(crate) Vec<(String, Vec<u8>)>);
 impl<'de> serde::Deserialize<'de> for MetaOut {
 	fn deserialize<D: serde::Deserializer<'de>>(d: D) -> Result<Self, D::Error> {
 		struct V;
@@ -200,7 +200,7 @@ impl<'de> serde::Deserialize<'de> for MetaOut {
 	}
 }
 
-fn fmt_item(r: Result<Option<DVal>, serde_avro_fast::de::DeError>) -> (String, bool) {
+pub(crate) fn fmt_item(r: Result<Option<DVal>, serde_avro_fast::de::DeError>) -> (String, bool) {
 	match r {
 		Ok(Some(d)) => (format!("(ok {d})"), false),
 		Ok(None) => ("eof".into(), true),
@@ -215,6 +215,25 @@ fn fmt_item(r: Result<Option<DVal>, serde_avro_fast::de::DeError>) -> (String, b
 	}
 }
 
+pub(crate) fn open_err(e: FailedToInitializeReader) -> String {
+	let kind = match &e {
+		FailedToInitializeReader::NotAvroObjectContainerFile => "magic",
+		FailedToInitializeReader::FailedToDeserializeHeader(_) => "header",
+		FailedToInitializeReader::FailedToParseSchema(_) => "schema",
+	};
+	format!("(open-err {kind} {})", esc(&e.to_string()))
+}
+pub(crate) fn fmt_meta(m: &MetaOut) -> String {
+	let mut kv: Vec<_> = m.0.iter().collect();
+	kv.sort();
+	let mut s = String::from("(meta");
+	for (k, v) in kv {
+		s.push_str(&format!(" ({} {})", esc(k), hex(v)));
+	}
+	s.push(')');
+	s
+}
+
 /// cr xFILE MODE TARGET MAXCALLS [FAILAT]
 /// MODE ::= slice | (chunks N...) ; reads until eof has been seen twice or MAXCALLS
 /// -> (ok xSCHEMAJSON (meta (xK xV)...) ITEM...) | (open-err KIND xMSG)
@@ -227,25 +246,7 @@ pub fn cmd_cr(a: &[Sx]) -> Result<String, String> {
 		Some(x) => Some(x.int()?),
 		None => None,
 	};
-	let open_err = |e: FailedToInitializeReader| -> String {
-		let kind = match &e {
-			FailedToInitializeReader::NotAvroObjectContainerFile => "magic",
-			FailedToInitializeReader::FailedToDeserializeHeader(_) => "header",
-			FailedToInitializeReader::FailedToParseSchema(_) => "schema",
-		};
-		format!("(open-err {kind} {})", esc(&e.to_string()))
-	};
 	let mut out = String::new();
-	let fmt_meta = |m: &MetaOut| -> String {
-		let mut kv: Vec<_> = m.0.iter().collect();
-		kv.sort();
-		let mut s = String::from("(meta");
-		for (k, v) in kv {
-			s.push_str(&format!(" ({} {})", esc(k), hex(v)));
-		}
-		s.push(')');
-		s
-	};
 	macro_rules! drive {
 		($reader:expr, $meta:expr) => {{
 			let mut reader = $reader;
